@@ -9,6 +9,8 @@ def jobs(tier):
     t = tier == "thorough"
     ms = 3000 if t else 240
     js = pipeline_jobs("c05", tier, relists=(None,), curated_relist=None)
+    n11, b11 = CURATED["chain-11"]
+    js.append(job("harness.pipeline", "c05", "S-curated/chain-11/two-labels", dict(n=n11, bonds=[list(b) for b in b11], K_m=2, K_r=1, label_atoms=[0, 4, 5, 10]), max_seconds=ms))
     R = "harness.readers"
     js += [job(R, "c05_reader", "reader/v3000/n2", dict(n=2, fmt="v3000"), max_seconds=ms),
            job(R, "c05_reader", "reader/v2000/n2", dict(n=2, fmt="v2000"), max_seconds=ms)]
